@@ -123,6 +123,7 @@ SRC_RAW = {
     "C10": ["SrcBound"],
     "C11": ["SrcAct"],
     "C12": ["SrcAct"],
+    "C15": ["SrcGen"],
     "C17": ["SrcLoad"],
     "C18": ["SrcLoad"],
     "C20": ["SrcBound"],
